@@ -156,6 +156,12 @@ def gen(rng, ctx, depth):
         return T("try", 0, body + cl)
     if k == "with":
         tgt = V(name()) if rng.random() < 0.6 else T("nov")
+        if rng.random() < 0.3:
+            # two managers in one form; the second may need statements
+            mgr2 = T("cm", 0) if rng.random() < 0.4 else T("do", 0, [g(), T("cm", 0)])
+            tgt2 = V(name()) if rng.random() < 0.6 else T("nov")
+            inner = T("with", 0, [tgt2, mgr2] + many(0, 2))
+            return T("with", 0, [tgt, T("cm", 0), inner], merge=1)
         return T("with", 0, [tgt, T("cm", 0)] + many(0, 2))
     raise ValueError(k)
 
@@ -194,7 +200,17 @@ def while_cond_sites(t, out=None, inside=False):
     return out
 
 
-def make_script(rng, t, ns, ncm):
+def merged_outer_cms(t, out=None):
+    """cm ids of managers that are followed by another manager in the same `with` form"""
+    out = set() if out is None else out
+    if t.k == "with" and t.x.get("merge") and t.ch[1].k == "cm":
+        out.add(t.ch[1].a)
+    for c in t.ch:
+        merged_outer_cms(c, out)
+    return out
+
+
+def make_script(rng, t, ns, ncm, merged_suppress=False):
     wc = while_cond_sites(t)
     sc = {}
     for k in range(1, ns + 1):
@@ -207,6 +223,11 @@ def make_script(rng, t, ns, ncm):
         sc[ns + 2 * c - 1] = [rng.choice(SCRIPT_POOL)]
         sc[ns + 2 * c] = [V_NONE]
     supp = {c: rng.randint(0, 1) for c in range(1, ncm + 1)}
+    if not merged_suppress:
+        # known finding (C09): a later manager's __exit__ raising after the body finished, suppressed
+        # by an earlier manager of the same form; only the C09 check exercises that situation
+        for c in merged_outer_cms(t):
+            supp[c] = 0
     return sc, supp
 
 
